@@ -47,6 +47,9 @@ def judge(ctx, items, res, driver, case):
                               expected='16-bit encoding', observed=c.out[cur:cur + 4])
     ctx.count('eligible_units', elig)
     dec = ':decreasing-expression' if any(progs.spec_class(it).startswith('rsub') for it in items) else ''
+    consts = {i['name'] for i in items if i['k'] == 'const' and 'name' in i}
+    if not dec and any(consts & set(L.refs(it)) for it in items):
+        dec = ':const-target'         # a transfer / %offset to a CONSTANT: the distance to an absolute address grows when the code in front shrinks
     if len(c.out) > len(u.out):
         ctx.violation('%s:program:grew%s' % (PROP, dec), 'compressed output is %d bytes, uncompressed %d' % (len(c.out), len(u.out)), driver, case,
                       expected='<= %d' % len(u.out), observed=len(c.out))
